@@ -14,7 +14,7 @@ from odata_query import ast, exceptions
 
 from .. import drive, findings
 from ..envs import django_env, sqla_env, visitors as shipped
-from ..gen import terms as T
+from ..gen import terms as T, relational as R
 from ..gen.printer import to_text
 from ..mon import contracts
 from ..ref import sql_lex, sql_parse, sql_value
@@ -470,6 +470,36 @@ def judge(ctx, kname, pos, t, backend, rel, unknown_field, check_leaves=True, ro
     if backend == "sqlalchemy-orm" and rel:
         # every to-one navigation step of the filter needs its own JOIN
         want = sum(len(v) for v in findings._to_one_targets(t, root.lower()).values())
+        # ... except a hop that ENDS a path (author/home eq null): comparing the relationship
+        # itself legitimately reads the key column of the previous table
+        ends = set()
+        for n in T.walk(t):
+            if n[0] in ("id", "attr"):
+                parts = R.path_parts(n)
+                e, path = root.lower(), []
+                for p_ in parts:
+                    if p_ in R.TO_ONE.get(e, {}):
+                        e = R.TO_ONE[e][p_]
+                        path.append(p_)
+                    else:
+                        path = None
+                        break
+                if path and len(path) == len(parts):
+                    ends.add(tuple(path))
+        through = set()
+        for n in T.walk(t):
+            if n[0] in ("id", "attr"):
+                parts = R.path_parts(n)
+                e, path = root.lower(), []
+                for k_, p_ in enumerate(parts):
+                    if p_ in R.TO_ONE.get(e, {}):
+                        e = R.TO_ONE[e][p_]
+                        path.append(p_)
+                        if k_ < len(parts) - 1:
+                            through.add(tuple(path))
+                    else:
+                        break
+        want -= len([x for x in ends if x not in through])
         got = len(re.findall(r"\bJOIN\b", res[1].upper()))
         ctx.count("join_counts_checked")
         if got < want:
